@@ -85,6 +85,37 @@ pub fn byzantine_keys(b: &mut Builder, f: u8) -> Vec<(Kind, Vec<u8>, Option<bool
             out.push((Kind::Secret, n, Some(false), "scalar n".into()));
             out.push((Kind::Secret, np1, Some(false), "scalar n+1".into()));
             out.push((Kind::Secret, vec![0xff; 48], Some(false), "scalar 2^384-1".into()));
+            // scalars that differ from the group order n in one machine word: word i one less and every
+            // lower word all ones (a valid key, just below n in that word), word i one more and every lower
+            // word zero (not a key): at every word boundary of a 32- and a 64-bit limb representation.
+            // Whether a scalar is a key is decided here by comparing plain big integers.
+            {
+                use num_bigint_dig::BigUint;
+                let nb = curves::p384_n().to_bytes_be();
+                for w in [4usize, 8] {
+                    for i in 0..48 / w {
+                        let word = &nb[i * w..(i + 1) * w];
+                        if word.iter().any(|x| *x != 0) {
+                            let mut lo = nb.clone();
+                            let dec = (BigUint::from_bytes_be(word) - BigUint::from(1u8)).to_bytes_be();
+                            lo[i * w..(i + 1) * w].fill(0);
+                            lo[(i + 1) * w - dec.len()..(i + 1) * w].copy_from_slice(&dec);
+                            lo[(i + 1) * w..].fill(0xff);
+                            let ok = BigUint::from_bytes_be(&lo) < curves::p384_n() && lo.iter().any(|x| *x != 0);
+                            out.push((Kind::Secret, lo, Some(ok), format!("scalar below n in {}-bit word {i}, all ones behind it", w * 8)));
+                        }
+                        if word.iter().any(|x| *x != 0xff) {
+                            let mut hi = nb.clone();
+                            let inc = (BigUint::from_bytes_be(word) + BigUint::from(1u8)).to_bytes_be();
+                            hi[i * w..(i + 1) * w].fill(0);
+                            hi[(i + 1) * w - inc.len()..(i + 1) * w].copy_from_slice(&inc);
+                            hi[(i + 1) * w..].fill(0);
+                            let ok = BigUint::from_bytes_be(&hi) < curves::p384_n();
+                            out.push((Kind::Secret, hi, Some(ok), format!("scalar above n in {}-bit word {i}, zeros behind it", w * 8)));
+                        }
+                    }
+                }
+            }
             let mut small = rnd(b, 48);
             small[0] = 0;
             small[1] = 0;
